@@ -423,6 +423,9 @@ func Worker(args []string) {
 		debug.SetMaxStack(32 << 20)
 	}
 	debug.SetGCPercent(400)
+	// the materialised space itself is ~300 MB live in the thorough tier; with 400 % the heap would peak at
+	// five times that, next to the address-space limit the parent sets: collect earlier instead
+	debug.SetMemoryLimit(1200 << 20)
 	sp := spaceByName(name, thorough)
 	out := os.Stdout
 	for i := from; i < to && i < sp.n; i++ {
@@ -642,7 +645,7 @@ func firstLines(s string, n int) string {
 // runWorker runs one child over [from,to) and reports how far it got.
 func runWorker(self, tier, name string, from, to int) (last int, done bool, stderr string, fs []finding, hung bool) {
 	last = from - 1
-	limit := 3000000
+	limit := 4000000
 	if name == "nesting" {
 		limit = 14000000
 	}
